@@ -21,6 +21,10 @@ enum Case {
     ShuffleFairFamily { len: u8, seeds: u32, start: u64, stride: u64 },
     /// 8192 draws from next(0..len) (len = 0 means the full u8 range `..`), no period <= 2048
     Period { len: u16, seed: u64 },
+    /// like Period, drawing through another integer type: 0 u16 (as Period), 1 u8, 2 i8, 3 u32, 4 i32, 5 u64, 6 i64, 7 usize, 8 isize
+    PeriodTy { ty: u8, len: u16, seed: u64 },
+    /// shuffle of 0..len (lengths around powers of two up to 2^17+1) must be a rearrangement
+    ShuffleLen { seed: u64, len: u32 },
     Reach { ty: u8, start: i16, len: u8 },
 }
 
@@ -263,6 +267,52 @@ fn period(len: u16, seed: u64) -> CaseResult {
     Ok(st)
 }
 
+fn period_ty(ty: u8, len: u16, seed: u64) -> CaseResult {
+    const W: usize = 8192;
+    let len = len.clamp(2, 120);
+    let mut r = Rng::from_seed(seed);
+    let name = ["u16", "u8", "i8", "u32", "i32", "u64", "i64", "usize", "isize"][ty as usize % 9];
+    let s: Vec<u64> = (0..W)
+        .map(|_| match ty % 9 {
+            0 => r.next::<u16, _>(0..len) as u64,
+            1 => r.next::<u8, _>(0..len as u8) as u64,
+            2 => (r.next::<i8, _>(-3..(len as i8 - 3)) + 3) as u64,
+            3 => r.next::<u32, _>(7..=(len as u32 + 6)) as u64 - 7,
+            4 => (r.next::<i32, _>(-1000..(len as i32 - 1000)) + 1000) as u64,
+            5 => r.next::<u64, _>(..len as u64),
+            6 => (r.next::<i64, _>(-5..=(len as i64 - 6)) + 5) as u64,
+            7 => r.next::<usize, _>(0..len as usize) as u64,
+            _ => (r.next::<isize, _>(-9..(len as isize - 9)) + 9) as u64,
+        })
+        .collect();
+    vensure!(s.iter().all(|&x| x < len as u64), "member", "a draw of type {} from a range of length {} fell outside it", name, len);
+    for p in 1..=2048usize {
+        if (0..W - p).all(|i| s[i] == s[i + p]) {
+            return Err(Violation::new("period", format!("8192 consecutive {} draws from a range of length {} with seed {} repeat with period {} (first values {:?})", name, len, seed, p, &s[..12])));
+        }
+    }
+    let mut st = CaseStats::default();
+    st.nontrivial = true;
+    Ok(st)
+}
+
+fn shuffle_len(seed: u64, len: u32) -> CaseResult {
+    let mut r = Rng::from_seed(seed);
+    let mut v: Vec<u32> = (0..len).collect();
+    r.shuffle(&mut v);
+    let moved = v.iter().enumerate().filter(|(i, &x)| *i as u32 != x).count();
+    let mut sorted = v.clone();
+    sorted.sort_unstable();
+    vensure!(sorted.len() == len as usize && sorted.iter().enumerate().all(|(i, &x)| i as u32 == x), "shuffle/not-a-permutation", "shuffle (seed {}) of 0..{} is not a rearrangement of the same elements", seed, len);
+    if len >= 64 {
+        vensure!(moved * 2 >= len as usize, "shuffle/chi2", "shuffle (seed {}) of 0..{} left {} of {} elements in place", seed, len, len as usize - moved, len);
+    }
+    let mut st = CaseStats::default();
+    st.nontrivial = len >= 2;
+    st.size = len as u64;
+    Ok(st)
+}
+
 fn reach(ty: u8, start: i16, len: u8) -> CaseResult {
     let mut st = CaseStats::default();
     let (mn, mx) = bounds(ty);
@@ -338,6 +388,8 @@ fn run_case(c: &Case) -> CaseResult {
             shuffle_fair_over(*len, *seeds, &format!("seeds {} + k*{}", start, stride), move |k| start.wrapping_add(k.wrapping_mul(stride)))
         }
         Case::Period { len, seed } => period(*len, *seed),
+        Case::PeriodTy { ty, len, seed } => period_ty(*ty, *len, *seed),
+        Case::ShuffleLen { seed, len } => shuffle_len(*seed, *len),
         Case::Reach { ty, start, len } => reach(*ty, *start, *len),
     }
 }
@@ -415,7 +467,7 @@ fn main() {
          reachability - every 8-bit range of length <= 64 at every start: each value is produced by some raw output from a candidate set \
          that does not assume the mapping; (c) floats - finite half-open f64 ranges (tiny, huge, overflowing end-start, subnormal, ulp-wide, \
          negative) crossed with the raw set: start <= x < end; (d) determinism - equal seeds and Copy/Clone'd generators give equal mixed \
-         streams; (e) shuffle - output is a permutation of the input (slices <= 200); for lengths 2..=6 over 2*10^5 random 64-bit seeds, and over 2*10^5 consecutive seeds and arithmetic seed families of stride 1000, 1000003, 2^16, 2^20, \
+         streams; (e) shuffle - output is a permutation of the input (slices <= 200, and 0..n for n = 2^k-1, 2^k, 2^k+1 up to 2^17+1); for lengths 2..=6 over 2*10^5 random 64-bit seeds, and over 2*10^5 consecutive seeds and arithmetic seed families of stride 1000, 1000003, 2^16, 2^20, \
          every permutation is reached and chi^2 < dof + 8*sqrt(2*dof) + 30; (f) 8192 consecutive draws from 0..len (len in \
          2,3,4,8,16,64,256 and the full u8 range) have no period <= 2048, for 16+ seeds. Non-trivial: (a) range length not a power of two, \
          (c) raw >= 2^53, others always. Distinct = distinct (sub-check, case); the exhaustive 8-bit block is counted as enumerated tuples.",
@@ -507,5 +559,24 @@ fn main() {
     }
     let periods: Vec<Case> = [2u16, 3, 4, 8, 16, 64, 256, 0, 6, 10, 100].iter().flat_map(|&len| seeds.iter().map(move |&seed| Case::Period { len, seed })).collect();
     ctx.exhaustive("non-periodicity", "rand-case", "lengths 2,3,4,6,8,10,16,64,100,256 and the full u8 range x 18+ seeds, 8192-draw windows", false, periods, run_case);
+    let mut pt = Vec::new();
+    for ty in 1..9u8 {
+        for len in [2u16, 3, 4, 8, 16, 64, 6, 100] {
+            for &seed in seeds.iter().take(6) {
+                pt.push(Case::PeriodTy { ty, len, seed });
+            }
+        }
+    }
+    ctx.exhaustive("non-periodicity-by-type", "rand-case", "u8, i8, u32, i32, u64, i64, usize, isize draws x range lengths 2,3,4,6,8,16,64,100 (several range forms) x 6 seeds", false, pt, run_case);
+    let mut sl = Vec::new();
+    for k in 1..=17u32 {
+        for d in [-1i64, 0, 1] {
+            let len = ((1i64 << k) + d) as u32;
+            for seed in [1u64, pr.next()] {
+                sl.push(Case::ShuffleLen { seed, len });
+            }
+        }
+    }
+    ctx.exhaustive("shuffle-lengths-around-powers-of-two", "rand-case", "slices of length 2^k-1, 2^k, 2^k+1 for k = 1..17, two seeds each", false, sl, run_case);
     ctx.finish();
 }
